@@ -154,6 +154,18 @@ pub fn parse_eof(src: &'static str) -> Report {
     .with_source_code(src)
 }
 
+pub fn parse_too_long(src: &'static str) -> Report {
+    let offset = src.len().checked_sub(1).unwrap_or(0);
+    miette!(
+        severity = Severity::Error,
+        code = "parse::too_long",
+        help = "a program cannot be larger than the 16-bit address space",
+        labels = vec![LabeledSpan::at_offset(offset, "here")],
+        "Program has too many statements",
+    )
+    .with_source_code(src)
+}
+
 pub fn parse_lit_range(span: Span, src: &'static str, bits: Bits) -> Report {
     miette!(
         severity = Severity::Error,
